@@ -45,14 +45,47 @@
 (*                                  closes while others are open removes    *)
 (*                                  <db>-wal/-shm: contexts opened later    *)
 (*                                  see only what the main file holds       *)
+(*      "BackupDropsJournalMode" - (hypothetical, Demo only) backup_db      *)
+(*                                  writes the copy as a fresh database     *)
+(*                                  (SQLite default: rollback journal)      *)
+(*                                  instead of a byte-for-byte copy         *)
+(*      "ModeSetByCreatorOnly"   - (hypothetical, Demo only) only the       *)
+(*                                  context that creates the tables issues  *)
+(*                                  PRAGMA journal_mode = WAL               *)
+(*                                                                          *)
+(* JOURNAL MODE.  The mode is a property of the database FILE (header bytes *)
+(* 18/19), field `jm` of an inode: "wal" or "del" (rollback journal, the    *)
+(* default of every file SQLite creates).  It travels with the file: a      *)
+(* backup written by Connection.backup is a byte-for-byte copy and has the  *)
+(* mode of its source; a restore (rename) keeps the mode of the backup.     *)
+(* create_db issues PRAGMA journal_mode = WAL in the start-up script of     *)
+(* EVERY context, so whatever file is at the path - created by the library, *)
+(* restored from a backup (scenario field prov = "lib": the backup was      *)
+(* written by backup_db() of an earlier context which then overwrote the    *)
+(* pages and closed - a re-run), or brought there in rollback mode by other *)
+(* means (prov = "rbj") - is a WAL database before any page work starts     *)
+(* (invariant WalAtWork).  The rules above are the WAL rules.  In ROLLBACK  *)
+(* mode readers and writers exclude each other: an open cursor holds the    *)
+(* SHARED lock for as long as it is open, a commit needs the EXCLUSIVE lock *)
+(* and waits (busy handler) while any other connection holds SHARED; a      *)
+(* reader may stay on a page longer than any busy timeout, so the commit of *)
+(* a writer that meets a long-lived cursor of another worker fails with     *)
+(* "database is locked" (RollbackBlocked) and keeps its PENDING/RESERVED    *)
+(* lock until its connection closes.  Scenario field rdr says which workers *)
+(* keep the get_all_pages() cursor open when `cursor` is set: 0 = all,      *)
+(* k = only worker k (a long-lived reader beside writers without cursor).   *)
 EXTENDS Naturals, Sequences, FiniteSets, TLC
 
 CONSTANTS
   Procs,       \* worker ids
   Dev,         \* deviations switched on
-  Scenarios    \* set of [bak, boot, cursor, drv]: backup file present / bootstrap page stored /
+  Scenarios    \* set of [bak, boot, cursor, drv, prov, rdr]: backup file present / bootstrap page stored /
                \* workers keep a get_all_pages() cursor open while they work /
-               \* the creating context is still open when the workers start
+               \* the creating context is still open when the workers start /
+               \* provenance of the files: "built" (library-made WAL database closed cleanly, backup = such a
+               \* file put under the backup name), "lib" (backup written by backup_db() of an earlier context),
+               \* "rbj" (the files are in rollback-journal mode) /
+               \* which workers keep the cursor: 0 = all, k = worker k only
 
 RestoreRace == "RestoreRaceOnStartup" \in Dev
 BootSnap == "BootstrapUnderSnapshot" \in Dev
@@ -61,6 +94,8 @@ BootSnap == "BootstrapUnderSnapshot" \in Dev
 \* writes the page again on its first Lua use
 BootcheckNeverHits == "BootcheckNeverHits" \in Dev
 CloseTidies == "CloseRemovesSideFiles" \in Dev
+BackupDropsMode == "BackupDropsJournalMode" \in Dev
+ModeByCreatorOnly == "ModeSetByCreatorOnly" \in Dev
 
 D == 0                       \* the creating context (driver); only ever closes
 PAll == Procs \cup {D}
@@ -69,9 +104,9 @@ NIno == 3 + Cardinality(Procs)
 Inodes == 1..NIno
 
 \* c, tabs: what connections that share the side files see; ck: what the main file alone holds
-Ino(c, ver, tabs, used, ck) == [c |-> c, ver |-> ver, tabs |-> tabs, used |-> used, ck |-> ck]
+Ino(c, ver, tabs, used, ck, jm) == [c |-> c, ver |-> ver, tabs |-> tabs, used |-> used, ck |-> ck, jm |-> jm]
 Ck(c, tabs) == [c |-> c, tabs |-> tabs]
-Unused == Ino({}, 0, FALSE, FALSE, Ck({}, FALSE))
+Unused == Ino({}, 0, FALSE, FALSE, Ck({}, FALSE), "del")
 NoLife == [nlcD |-> FALSE, nlcW |-> FALSE, lateD |-> FALSE, lateW |-> FALSE]
 NoSnap == [on |-> FALSE, c |-> {}, ver |-> 0]
 
@@ -92,10 +127,14 @@ vars == <<scn, pmain, pbak, ino, wlock, pc, conn, snap, saw, res, chk, raced, sn
 
 BakPresent == scn.bak
 BootPresent == scn.boot
-Cursor == scn.cursor
+Cursor(p) == scn.cursor /\ (scn.rdr = 0 \/ scn.rdr = p)
 Driver == scn.drv
 Exp == IF BakPresent THEN "B" ELSE "M"     \* the page version a single process would see
 BootSet == IF BootPresent THEN {"boot"} ELSE {}
+\* journal mode of the files the workers find.  A library-made database is a WAL database (its creating
+\* context switched it); backup_db copies the file byte for byte, header included.
+JmMain == IF scn.prov = "rbj" THEN "del" ELSE "wal"
+JmBak == IF scn.prov = "rbj" \/ (scn.prov = "lib" /\ BackupDropsMode) THEN "del" ELSE "wal"
 
 Init ==
   /\ scn \in Scenarios
@@ -103,8 +142,8 @@ Init ==
   \* the creating context made the tables before it switched to WAL (code order of create_db):
   \* the schema is in the main file, every stored page only in the side file until a checkpoint
   /\ ino = [i \in Inodes |-> IF i = 1 THEN Ino({"M"} \cup BootSet, 0, TRUE, TRUE,
-                                              IF Driver THEN Ck({}, TRUE) ELSE Ck({"M"} \cup BootSet, TRUE))
-                              ELSE IF i = 2 /\ BakPresent THEN Ino({"B"} \cup BootSet, 0, TRUE, TRUE, Ck({"B"} \cup BootSet, TRUE))
+                                              IF Driver THEN Ck({}, TRUE) ELSE Ck({"M"} \cup BootSet, TRUE), JmMain)
+                              ELSE IF i = 2 /\ BakPresent THEN Ino({"B"} \cup BootSet, 0, TRUE, TRUE, Ck({"B"} \cup BootSet, TRUE), JmBak)
                               ELSE Unused]
   /\ wlock = [i \in Inodes |-> 0]
   /\ pc = [p \in PAll |-> IF p # D THEN "exists" ELSE IF Driver THEN "done" ELSE "closed"]
@@ -148,7 +187,7 @@ Rename(p) ==
 Connect(p) ==
   /\ pc[p] = "connect"
   /\ IF pmain = 0
-     THEN /\ pmain' = FreeIno /\ ino' = [ino EXCEPT ![FreeIno] = Ino({}, 0, FALSE, TRUE, Ck({}, FALSE))]
+     THEN /\ pmain' = FreeIno /\ ino' = [ino EXCEPT ![FreeIno] = Ino({}, 0, FALSE, TRUE, Ck({}, FALSE), "del")]
           /\ conn' = [conn EXCEPT ![p] = FreeIno]
      ELSE conn' = [conn EXCEPT ![p] = pmain] /\ UNCHANGED <<pmain, ino>>
   /\ Go(p, "script")
@@ -159,12 +198,18 @@ Connect(p) ==
 \* First access of the connection (CREATE TABLE IF NOT EXISTS ...; PRAGMA ...): SQLite
 \* opens the -shm/-wal files beside the path and refuses ("disk I/O error") when the file
 \* it holds is no longer the one at the path.  A write only on a database without schema.
+\* The script ends with PRAGMA journal_mode = WAL: whatever mode the file at the path was in,
+\* it is a WAL database from here on (switching needs the file lock for a moment: no other
+\* connection can be inside a transaction on a rollback-mode file at this point, because every
+\* connection ran this script before its first page access).
+SetsWal(p) == ~ModeByCreatorOnly \/ ~ino[conn[p]].tabs
 Script(p) ==
   /\ pc[p] = "script"
   /\ IF pmain # conn[p] THEN Fail(p, "ioerr") /\ ino' = ino /\ opn' = [opn EXCEPT ![p] = FALSE]  \* no context object: the connection is dropped
-     ELSE /\ IF ino[conn[p]].tabs THEN ino' = ino
-             ELSE wlock[conn[p]] = 0 /\ ino' = [ino EXCEPT ![conn[p]].tabs = TRUE, ![conn[p]].ver = @ + 1]
-          /\ Go(p, IF Cursor THEN "cursor" ELSE "read1") /\ res' = res /\ opn' = opn
+     ELSE /\ IF ino[conn[p]].tabs THEN ino' = [ino EXCEPT ![conn[p]].jm = IF SetsWal(p) THEN "wal" ELSE @]
+             ELSE wlock[conn[p]] = 0 /\ ino' = [ino EXCEPT ![conn[p]].tabs = TRUE, ![conn[p]].ver = @ + 1,
+                                                           ![conn[p]].jm = IF SetsWal(p) THEN "wal" ELSE @]
+          /\ Go(p, IF Cursor(p) THEN "cursor" ELSE "read1") /\ res' = res /\ opn' = opn
   /\ UNCHANGED <<pmain, pbak, wlock, conn, snap, saw, chk, raced, snapfail, life>>
 
 (* ---- page work ---- *)
@@ -204,16 +249,24 @@ Insert(p) ==
   /\ UNCHANGED <<pmain, pbak, ino, conn, snap, saw, chk, raced, opn, life>>
 
 \* an upsert that stores what is stored already writes nothing: no new version
+\* Rollback-journal mode: the commit needs the EXCLUSIVE lock, i.e. no other connection may hold
+\* SHARED (= have a cursor open).  SQLite waits for the busy timeout; the reader may stay where it is
+\* for longer than that, so under "every interleaving" the commit fails ("database is locked"); the
+\* failed writer keeps its lock until its connection is closed.  WAL mode: readers never block a commit.
+Readers(i, p) == {q \in PAll \ {p} : opn[q] /\ conn[q] = i /\ snap[q].on}
+RollbackBlocked(p) == ino[conn[p]].jm = "del" /\ Readers(conn[p], p) # {}
 Commit(p) ==
   /\ pc[p] = "commit"
-  /\ ino' = [ino EXCEPT ![conn[p]].c = @ \cup {"boot"},
-                        ![conn[p]].ver = IF "boot" \in ino[conn[p]].c THEN @ ELSE @ + 1]
-  /\ wlock' = [wlock EXCEPT ![conn[p]] = 0]
-  /\ snap' = [snap EXCEPT ![p] = IF snap[p].on
-                                  THEN [on |-> TRUE, c |-> ino'[conn[p]].c, ver |-> ino'[conn[p]].ver]
-                                  ELSE NoSnap]
-  /\ Go(p, "read2")
-  /\ UNCHANGED <<pmain, pbak, conn, saw, res, chk, raced, snapfail, opn, life>>
+  /\ IF RollbackBlocked(p)
+     THEN Fail(p, "locked") /\ UNCHANGED <<ino, wlock, snap>>
+     ELSE /\ ino' = [ino EXCEPT ![conn[p]].c = @ \cup {"boot"},
+                                ![conn[p]].ver = IF "boot" \in ino[conn[p]].c THEN @ ELSE @ + 1]
+          /\ wlock' = [wlock EXCEPT ![conn[p]] = 0]
+          /\ snap' = [snap EXCEPT ![p] = IF snap[p].on
+                                          THEN [on |-> TRUE, c |-> ino'[conn[p]].c, ver |-> ino'[conn[p]].ver]
+                                          ELSE NoSnap]
+          /\ Go(p, "read2") /\ res' = res
+  /\ UNCHANGED <<pmain, pbak, conn, saw, chk, raced, snapfail, opn, life>>
 
 Read2(p) ==
   /\ pc[p] = "read2"
@@ -241,7 +294,7 @@ Close(p) ==
            THEN \* the side files are gone from the path: the others keep theirs (open files),
                 \* whoever opens the path from now on sees the main file alone
                 /\ pmain' = FreeIno
-                /\ ino' = [ino EXCEPT ![FreeIno] = Ino(ino[i].ck.c, 0, ino[i].ck.tabs, TRUE, ino[i].ck)]
+                /\ ino' = [ino EXCEPT ![FreeIno] = Ino(ino[i].ck.c, 0, ino[i].ck.tabs, TRUE, ino[i].ck, ino[i].jm)]
                 /\ conn' = [q \in PAll |-> IF opn[q] /\ conn[q] = i /\ pc[q] = "script" THEN FreeIno ELSE conn[q]]
            ELSE ino' = ino /\ pmain' = pmain /\ conn' = conn
         /\ life' = IF last THEN life
@@ -250,7 +303,9 @@ Close(p) ==
   /\ snap' = [snap EXCEPT ![p] = NoSnap]
   /\ pc' = [pc EXCEPT ![p] = IF pc[p] = "done" THEN "closed" ELSE "failed"]
   /\ scn' = scn
-  /\ UNCHANGED <<pbak, wlock, saw, res, chk, raced, snapfail>>
+  \* a writer whose commit failed still holds its lock: closing the connection releases it
+  /\ wlock' = [j \in Inodes |-> IF wlock[j] = p THEN 0 ELSE wlock[j]]
+  /\ UNCHANGED <<pbak, saw, res, chk, raced, snapfail>>
 
 Step(p) == Exists(p) \/ Unlink(p) \/ Rename(p) \/ Connect(p) \/ Script(p) \/ OpenCursor(p)
            \/ Read1(p) \/ Bootcheck(p) \/ Insert(p) \/ Commit(p) \/ Read2(p) \/ Close(p)
@@ -274,4 +329,8 @@ SerialResults == \A p \in Procs : pc[p] \in {"done", "closed"} => res[p] = "ok"
 StoreUnchanged == AllDone => (pmain # 0 /\ ino[pmain].c \ {"boot"} = {Exp})
 \* nobody waits forever: some worker can always move until all are finished
 NoDeadlock == AllDone \/ (\E p \in PAll : ENABLED Step(p))
+\* every open (re-)establishes WAL: page work only ever runs on a WAL database, whatever file
+\* was at the path (the rule the reader/writer independence above rests on)
+AtWork(p) == pc[p] \in {"cursor", "read1", "bootcheck", "insert", "commit", "read2"}
+WalAtWork == \A p \in Procs : AtWork(p) => ino[conn[p]].jm = "wal"
 =============================================================================
